@@ -159,3 +159,7 @@ func vFixMapOrderType(t string) {}
 func vNow() int64 { return 0 }
 
 func vNote(s string) { fmt.Println("NOTE:", s) }
+
+func vJSONEqual(a, b []byte) bool  { return string(a) == string(b) }
+func vJSONTruncate(b []byte) []byte { return b[:len(b)/2] }
+func vJSONString(b []byte) string   { return string(b) }
